@@ -69,8 +69,8 @@ def run():
     corp = Corpus(chk)
     r = common.rng("c07")
     if chk.quick:
-        triples = corp.triples(n_enum=330, n_random=120, salt="c07")
-        flagged = same_line_cases(r, 60)
+        triples = corp.triples(n_enum=560, n_random=160, salt="c07")
+        flagged = same_line_cases(r, 96)
     else:
         triples = corp.triples(n_enum=9000, n_random=4000, random_maxedits=5, salt="c07")
         flagged = same_line_cases(r, 900)
